@@ -26,6 +26,10 @@ type c17Case struct {
 	Ops      [][2]int `json:"ops"`      // (client, envelope number)
 	Fin      [][2]int `json:"fin"`      // (position in ops, client)
 	Together bool     `json:"together"` // the clients connect and establish concurrently
+	// Pings > 0: the Server is made by a ServerBuilder with AutoReplyPings, and every client fires that many ping
+	// requests concurrently with its own envelopes; a ping reply that is not the answer to a ping of the client
+	// that received it, or a ping left without its reply, shows up in the client's view as a foreign item
+	Pings int `json:"pings,omitempty"`
 	// observed
 	Server int        `json:"server"`
 	Sids   []int      `json:"sids"`
@@ -137,7 +141,7 @@ func (c *c17Case) run() error {
 		return cand, nil
 	}
 	mux := &lime.EnvelopeMux{}
-	mux.MessageHandlerFunc(nil, func(ctx context.Context, msg *lime.Message, s lime.Sender) error {
+	msgHandler := func(ctx context.Context, msg *lime.Message, s lime.Sender) error {
 		_, e, echo, ok := record(ctx, msg.ID, msg.PP)
 		if !ok {
 			return nil
@@ -150,8 +154,9 @@ func (c *c17Case) run() error {
 			}
 		}
 		return nil
-	})
-	mux.RequestCommandHandlerFunc(nil, func(ctx context.Context, cmd *lime.RequestCommand, s lime.Sender) error {
+	}
+	mux.MessageHandlerFunc(nil, msgHandler)
+	reqHandler := func(ctx context.Context, cmd *lime.RequestCommand, s lime.Sender) error {
 		_, e, echo, ok := record(ctx, cmd.ID, cmd.PP)
 		if !ok {
 			return nil
@@ -163,7 +168,8 @@ func (c *c17Case) run() error {
 			}
 		}
 		return nil
-	})
+	}
+	mux.RequestCommandHandlerFunc(nil, reqHandler)
 
 	inprocMu.Lock()
 	ipAddr := nextInprocAddr()
@@ -176,10 +182,22 @@ func (c *c17Case) run() error {
 	if err != nil {
 		return err
 	}
-	srv := lime.NewServer(cfg, mux,
-		lime.NewBoundListener(lime.NewInProcessTransportListener(ipAddr), ipAddr),
-		lime.NewBoundListener(lime.NewTCPTransportListener(nil), tcpAddr),
-		lime.NewBoundListener(lime.NewWebsocketTransportListener(nil), &net.TCPAddr{IP: wsAddr.IP, Port: wsAddr.Port}))
+	var srv *lime.Server
+	if c.Pings > 0 {
+		b := lime.NewServerBuilder().Name(serverNode.Name).Domain(serverNode.Domain).Instance(serverNode.Instance).
+			EnableGuestAuthentication().EncryptionOptions(lime.SessionEncryptionNone).ChannelBufferSize(4).
+			Register(cfg.Register).AutoReplyPings().
+			MessagesHandlerFunc(msgHandler).RequestCommandsHandlerFunc(reqHandler).
+			ListenInProcess(ipAddr).ListenTCP(tcpAddr, nil).ListenWebsocket(&net.TCPAddr{IP: wsAddr.IP, Port: wsAddr.Port}, nil)
+		srv = b.Build()
+		// the builder's guest rule wants UUID names; this scenario is not about authentication
+		srv.VerifConfig().Authenticate = allowAll
+	} else {
+		srv = lime.NewServer(cfg, mux,
+			lime.NewBoundListener(lime.NewInProcessTransportListener(ipAddr), ipAddr),
+			lime.NewBoundListener(lime.NewTCPTransportListener(nil), tcpAddr),
+			lime.NewBoundListener(lime.NewWebsocketTransportListener(nil), &net.TCPAddr{IP: wsAddr.IP, Port: wsAddr.Port}))
+	}
 	served := make(chan error, 1)
 	go func() { served <- srv.ListenAndServe() }()
 	defer func() {
@@ -223,6 +241,7 @@ func (c *c17Case) run() error {
 	c.Ctx = make([][3]int, n)
 	c.Out = make([][][4]int, n)
 	outMu := make([]sync.Mutex, n)
+	pongs := make([]int, n)
 	// clients connect one after the other, or all at once (then the server's backlog and its
 	// per-transport goroutines are exercised); client i's view is what is compared either way
 	connect := func(i int) error {
@@ -260,8 +279,22 @@ func (c *c17Case) run() error {
 				}
 			}
 		}()
+		own := ses.To
 		go func() {
 			for r := range cc.RespCmdChan() {
+				if strings.HasPrefix(r.ID, "ping-") {
+					// the answer to a ping: it must be one of this client's pings, addressed to this client
+					mine := strings.HasPrefix(r.ID, fmt.Sprintf("ping-c%d-", i)) && (r.To == (lime.Node{}) || r.To == own)
+					outMu[i].Lock()
+					if mine {
+						pongs[i]++
+					} else {
+						c.Out[i] = append(c.Out[i], [4]int{0, 0, 0, 777000 + i})
+						c.Note = "a ping reply reached a client that had not asked for it"
+					}
+					outMu[i].Unlock()
+					continue
+				}
 				if r.Reason != nil {
 					parse(r.Reason.Description)
 				}
@@ -321,6 +354,22 @@ func (c *c17Case) run() error {
 			expect := 0
 			got := func() int { outMu[i].Lock(); defer outMu[i].Unlock(); return len(c.Out[i]) }
 			finished := false
+			pinged := make(chan int, 1)
+			if c.Pings > 0 {
+				go func() {
+					sent := 0
+					uri, _ := lime.ParseLimeURI("/ping")
+					for k := 0; k < c.Pings; k++ {
+						q := &lime.RequestCommand{Command: lime.Command{Envelope: lime.Envelope{ID: fmt.Sprintf("ping-c%d-%d", i, k)}, Method: lime.CommandMethodGet}, URI: uri}
+						if chans[i].SendRequestCommand(ctx, q) == nil {
+							sent++
+						}
+					}
+					pinged <- sent
+				}()
+			} else {
+				pinged <- 0
+			}
 			for _, s := range progs[i] {
 				if s.fin {
 					// finish only once everything asked so far was answered, so that the view is determined
@@ -346,6 +395,14 @@ func (c *c17Case) run() error {
 				}
 			}
 			waitUntil(5*time.Second, func() bool { return got() >= expect })
+			if sent := <-pinged; sent > 0 && !finished {
+				if !waitUntil(5*time.Second*slack, func() bool { outMu[i].Lock(); defer outMu[i].Unlock(); return pongs[i] >= sent }) {
+					outMu[i].Lock()
+					c.Out[i] = append(c.Out[i], [4]int{0, 0, 0, 888000 + i})
+					c.Note = "a ping was left without its reply"
+					outMu[i].Unlock()
+				}
+			}
 		}()
 	}
 	wg.Wait()
@@ -454,6 +511,25 @@ func genC17Burst(env *Env, n, per int) *c17Case {
 	return c
 }
 
+// genC17Rush: n clients of one transport kind that all connect at the same moment, so that the server takes
+// several accepted transports from its backlog back to back; two envelopes each afterwards
+func genC17Rush(n int, kind string) *c17Case {
+	c := &c17Case{Together: true}
+	for i := 0; i < n; i++ {
+		c.Kinds = append(c.Kinds, kind)
+		c.Cands = append(c.Cands, i+1)
+		c.RegTab = append(c.RegTab, [2]int{i + 1, 100 + (i+3)%n})
+	}
+	e := 1
+	for k := 0; k < 2; k++ {
+		for i := 0; i < n; i++ {
+			c.Ops = append(c.Ops, [2]int{i, e})
+			e++
+		}
+	}
+	return c
+}
+
 func genC17(env *Env, n int, idx int) *c17Case {
 	rng := env.Rng
 	c := &c17Case{Together: idx%2 == 0}
@@ -506,7 +582,7 @@ func runC17(env *Env) error {
 	if ok, err := env.ReplayDesc(&rc); err != nil {
 		return err
 	} else if ok {
-		c := &c17Case{Kinds: rc.Kinds, Cands: rc.Cands, Ops: rc.Ops, Fin: rc.Fin, Together: rc.Together}
+		c := &c17Case{Kinds: rc.Kinds, Cands: rc.Cands, Ops: rc.Ops, Fin: rc.Fin, Together: rc.Together, Pings: rc.Pings}
 		// the replayed table carries interned node numbers; rebuild a table with the same shape
 		for _, r := range rc.RegTab {
 			c.RegTab = append(c.RegTab, [2]int{r[0], 100 + r[1]})
@@ -535,6 +611,23 @@ func runC17(env *Env) error {
 		cases = append(cases, genC17Burst(env, 8, 300), genC17Burst(env, 16, 150), genC17Burst(env, 4, 600), genC17Burst(env, 32, 60), genC17Burst(env, 8, 100), genC17Burst(env, 6, 130))
 	} else {
 		cases = append(cases, genC17Burst(env, 8, 100), genC17Burst(env, 4, 200), genC17Burst(env, 6, 130))
+	}
+	// sessions that ping a Server with AutoReplyPings all at the same time
+	for r := 0; r < env.Pick(3, 10); r++ {
+		pc := genC17Burst(env, 6, 20)
+		pc.Pings = env.Pick(400, 1500)
+		if r%2 == 1 {
+			for i := range pc.Kinds {
+				pc.Kinds[i] = []string{"inproc", "tcp"}[i%2]
+			}
+		}
+		cases = append(cases, pc)
+	}
+	for r := 0; r < env.Pick(4, 16); r++ {
+		cases = append(cases, genC17Rush(16, "inproc"))
+		if r%2 == 0 {
+			cases = append(cases, genC17Rush(12, "tcp"))
+		}
 	}
 	// cases are independent servers; run a few at a time
 	sem := make(chan struct{}, 4)
